@@ -203,3 +203,31 @@ int judge_batch(int type, const char *a, int m, int indels, int min_overlap, int
     }
     return bad;
 }
+
+/* C08: for every read and every removed length j (0..maxn), the exact distance between the whole adapter and the
+ * read prefix of length j (prefix != 0) or the read suffix of length j (prefix == 0).
+ * out[k*(maxn+1)+j] = distance, or 127 if j > len(read) or (no indels and j != m). ASCII comparison via eq table. */
+int anchored_dists(const char *a, int m, int indels, int prefix, const uint8_t *eq, const char *reads, const int *offs,
+                   int nreads, int maxn, signed char *out) {
+    static __thread int D[MAXL + 1][MAXL + 1];
+    cfg_t c;
+    int k, j;
+    if (m > MAXL || maxn > MAXL) return -1;
+    c.a = a; c.eq = eq; c.indels = indels; c.m = m;
+    for (k = 0; k < nreads; k++) {
+        const char *r = reads + offs[k];
+        int n = offs[k + 1] - offs[k];
+        signed char *o = out + (long)k * (maxn + 1);
+        for (j = 0; j <= maxn; j++) o[j] = 127;
+        if (prefix) {
+            fill(&c, r, 0, m, 0, n, D);
+            for (j = 0; j <= n && j <= maxn; j++) o[j] = D[m][j] >= INF ? 127 : (signed char)(D[m][j] > 126 ? 126 : D[m][j]);
+        } else {
+            for (j = 0; j <= n && j <= maxn; j++) {
+                fill(&c, r, 0, m, n - j, j, D);
+                o[j] = D[m][j] >= INF ? 127 : (signed char)(D[m][j] > 126 ? 126 : D[m][j]);
+            }
+        }
+    }
+    return 0;
+}
